@@ -387,8 +387,9 @@ impl<'tcx> Ex<'tcx> {
             Const::Val(v, ty) => self.const_val(v, *ty, &mut f),
             Const::Unevaluated(u, ty) => {
                 f.push(("item", J::s(dp(tcx, u.def))));
-                if u.promoted.is_some() {
+                if let Some(pi) = u.promoted {
                     f.push(("promoted", J::Bool(true)));
+                    f.push(("pidx", J::Int(pi.index() as i128)));
                 }
                 let env = TypingEnv::post_analysis(tcx, owner);
                 if let Ok(v) = tcx.const_eval_resolve(env, *u, c.span) {
@@ -603,6 +604,25 @@ impl<'tcx> Ex<'tcx> {
         if !upv.is_empty() {
             f.push(("upvars", J::Arr(upv)));
         }
+        f.push(("blocks", self.blocks_j(did, body)));
+        // promoted constants of this body (e.g. `&Schema::Bytes`, `&Codec::Null`): their tiny bodies
+        let proms = tcx.promoted_mir(did);
+        if !proms.is_empty() {
+            let mut pj = Vec::new();
+            for (pi, pb) in proms.iter_enumerated() {
+                pj.push(J::obj(vec![
+                    ("pidx", J::Int(pi.index() as i128)),
+                    ("ret", J::s(ty_s(pb.return_ty()))),
+                    ("blocks", self.blocks_j(did, pb)),
+                ]));
+            }
+            f.push(("promoteds", J::Arr(pj)));
+        }
+        Some(J::obj(f))
+    }
+
+    fn blocks_j(&self, did: DefId, body: &Body<'tcx>) -> J {
+        let tcx = self.tcx;
         let mut blocks = Vec::new();
         for (_bb, data) in body.basic_blocks.iter_enumerated() {
             let mut stmts = Vec::new();
@@ -729,8 +749,7 @@ impl<'tcx> Ex<'tcx> {
             }
             blocks.push(J::obj(bf));
         }
-        f.push(("blocks", J::Arr(blocks)));
-        Some(J::obj(f))
+        J::Arr(blocks)
     }
 }
 
